@@ -107,21 +107,27 @@ func genRace(w *bufio.Writer, r *rng, id int, goroutines, rounds int) {
 	for _, o := range sc.Opts[sc.Defaults:] {
 		shared = append(shared, sc.mkArg(o))
 	}
-	// sequential reference outcomes (fresh function objects afterwards so memo cells start empty)
+	// sequential reference outcomes: a few calls in a row on the same function objects (memo cells fill up),
+	// then fresh objects (and fresh map orders) again
 	seq := map[string]bool{}
-	for i := 0; i < 6; i++ {
-		var res am.Result
-		var pan interface{}
-		func() {
-			defer func() { pan = recover() }()
-			res = sc.Funcs[0].fn.Call(shared...)
-		}()
-		seq[outcomeOf(sc, res, pan)] = true
+	seqRound := func() {
+		for j := 0; j < 3; j++ {
+			var res am.Result
+			var pan interface{}
+			func() {
+				defer func() { pan = recover() }()
+				res = sc.Funcs[0].fn.Call(shared...)
+			}()
+			seq[outcomeOf(sc, res, pan)] = true
+		}
 		sc.buildAll()
 		shared = shared[:0]
 		for _, o := range sc.Opts[sc.Defaults:] {
 			shared = append(shared, sc.mkArg(o))
 		}
+	}
+	for i := 0; i < 6; i++ {
+		seqRound()
 	}
 	before, _ := raceLogSize()
 	for _, f := range sc.Funcs {
@@ -171,17 +177,34 @@ func genRace(w *bufio.Writer, r *rng, id int, goroutines, rounds int) {
 	for k, n := range got {
 		outs = append(outs, fmt.Sprintf("%s*%d", k, n))
 	}
-	for k := range seq {
-		seqs = append(seqs, k)
-	}
-	sort.Strings(outs)
-	sort.Strings(seqs)
 	var once []string
 	for _, f := range sc.Funcs {
 		if f.Once {
 			once = append(once, fmt.Sprintf("%d:%d", f.ID, f.execs))
 		}
 	}
+	// an outcome seen concurrently but not in the small sequential sample may simply be rare (it depends on map
+	// order and tie-breaking): before it is reported, sample sequential executions much harder
+	unseen := func() bool {
+		for k := range got {
+			if (strings.HasPrefix(k, "ok:") || strings.HasPrefix(k, "err:") || strings.HasPrefix(k, "panic:")) && !seq[k] {
+				return true
+			}
+		}
+		return false
+	}
+	if after <= before {
+		raceMode = false
+		for i := 0; i < 1500 && unseen(); i++ {
+			seqRound()
+		}
+		raceMode = true
+	}
+	for k := range seq {
+		seqs = append(seqs, k)
+	}
+	sort.Strings(outs)
+	sort.Strings(seqs)
 	fmt.Fprintf(w, "seq %s\ngot %s\nonce %s\n", strings.Join(seqs, ","), strings.Join(outs, ","), strings.Join(once, ","))
 	if after > before {
 		fmt.Fprintf(w, "race yes %s\n", tildeOnly(raceSummary(file, before)))
